@@ -16,34 +16,38 @@ def maxRune : Nat := 0x10FFFF
 /-- continuation byte 0x80..0xBF -/
 def isCont (c : Nat) : Bool := 0x80 ≤ c && c ≤ 0xBF
 
+/-- accept range of the second byte of a three-byte sequence (`acceptRanges` of
+`unicode/utf8`: `E0` needs `A0..BF`, `ED` needs `80..9F`, otherwise `80..BF`) -/
+def second3 (c0 c1 : Nat) : Bool :=
+  (if c0 = 0xE0 then 0xA0 ≤ c1 else 0x80 ≤ c1) && (if c0 = 0xED then c1 ≤ 0x9F else c1 ≤ 0xBF)
+
+/-- accept range of the second byte of a four-byte sequence (`F0`: `90..BF`, `F4`: `80..8F`) -/
+def second4 (c0 c1 : Nat) : Bool :=
+  (if c0 = 0xF0 then 0x90 ≤ c1 else 0x80 ≤ c1) && (if c0 = 0xF4 then c1 ≤ 0x8F else c1 ≤ 0xBF)
+
 /-- `utf8.DecodeRuneInString`: `(rune, size)`; every malformed sequence is `(RuneError, 1)`. -/
 def decodeRune : Bytes → Nat × Nat
   | [] => (runeError, 0)
   | b0 :: rest =>
-    let c0 := b0.toNat
-    if c0 < 0x80 then (c0, 1)
-    else if c0 < 0xC2 then (runeError, 1)
-    else if c0 < 0xE0 then
+    if b0.toNat < 0x80 then (b0.toNat, 1)
+    else if b0.toNat < 0xC2 then (runeError, 1)
+    else if b0.toNat < 0xE0 then
       match rest with
       | b1 :: _ =>
-        if isCont b1.toNat then ((c0 - 0xC0) * 64 + (b1.toNat - 0x80), 2) else (runeError, 1)
+        if isCont b1.toNat then ((b0.toNat - 0xC0) * 64 + (b1.toNat - 0x80), 2) else (runeError, 1)
       | _ => (runeError, 1)
-    else if c0 < 0xF0 then
+    else if b0.toNat < 0xF0 then
       match rest with
       | b1 :: b2 :: _ =>
-        let lo := if c0 = 0xE0 then 0xA0 else 0x80
-        let hi := if c0 = 0xED then 0x9F else 0xBF
-        if lo ≤ b1.toNat && b1.toNat ≤ hi && isCont b2.toNat then
-          ((c0 - 0xE0) * 4096 + (b1.toNat - 0x80) * 64 + (b2.toNat - 0x80), 3)
+        if second3 b0.toNat b1.toNat && isCont b2.toNat then
+          ((b0.toNat - 0xE0) * 4096 + (b1.toNat - 0x80) * 64 + (b2.toNat - 0x80), 3)
         else (runeError, 1)
       | _ => (runeError, 1)
-    else if c0 < 0xF5 then
+    else if b0.toNat < 0xF5 then
       match rest with
       | b1 :: b2 :: b3 :: _ =>
-        let lo := if c0 = 0xF0 then 0x90 else 0x80
-        let hi := if c0 = 0xF4 then 0x8F else 0xBF
-        if lo ≤ b1.toNat && b1.toNat ≤ hi && isCont b2.toNat && isCont b3.toNat then
-          ((c0 - 0xF0) * 262144 + (b1.toNat - 0x80) * 4096 + (b2.toNat - 0x80) * 64 + (b3.toNat - 0x80), 4)
+        if second4 b0.toNat b1.toNat && isCont b2.toNat && isCont b3.toNat then
+          ((b0.toNat - 0xF0) * 262144 + (b1.toNat - 0x80) * 4096 + (b2.toNat - 0x80) * 64 + (b3.toNat - 0x80), 4)
         else (runeError, 1)
       | _ => (runeError, 1)
     else (runeError, 1)
